@@ -43,8 +43,8 @@ impl Check for C03 {
     }
     fn runs(&self, tier: Tier) -> u64 {
         match tier {
-            Tier::Quick => 4_000,
-            Tier::Thorough => 300_000,
+            Tier::Quick => 300_000,
+            Tier::Thorough => 15_000_000,
         }
     }
     fn run(&self, tape: &mut Tape, ctx: &RunCtx) -> RunOut {
